@@ -147,7 +147,7 @@ CHECKS = {
         text="Runs with and without 1-3 extra unexpected units: the second result must equal the first plus exactly the "
              "extra votes on the attributable groups, new groups only where needed, one unit row each, all else "
              "unchanged (bootstrap: up to 1e-10 relative because matrix shapes change), and must never raise.",
-        note="Trusted: id rule for attribution. Two bootstrap classes are known findings.",
+        note="Trusted: id rule for attribution. The two bootstrap classes that used to be known findings were repaired (fix 9665ed4) and alarm again if they return.",
         ref="DESIGN.md section 6 C11",
     ),
     "C12": dict(
